@@ -5,7 +5,7 @@ From C14 Require Import Generated Model ServerModel Wire KlongLoop Spec Proofs R
 Import ListNotations.
 
 (* the facts the model follows, as regenerated from klongpy/sys_fn_ipc.py on this run *)
-Definition gen_flags : flags := mkFlags cleanup_iterates_snapshot finally_clears_writer.
+Definition gen_flags : flags := mkFlags cleanup_iterates_snapshot finally_clears_writer writer_cleared_after_on_close.
 Definition gen_flags_ok : fl_ok gen_flags := conj eq_refl eq_refl.
 
 (* T14.sound — a history accepted by the checker satisfies the property's statement: every call made completes
@@ -31,9 +31,10 @@ Theorem C14_response_resolves_own : forall s a s' ev k c c' b,
 Proof. exact (response_resolves_own gen_flags). Qed.
 Print Assumptions C14_response_resolves_own.
 
-(* T14.drain — ANY number of calls: after the listener exited, writer is None, every future still registered belongs to a
+(* T14.drain — ANY number of calls: once the connection is torn down -- INCLUDING the window in which _run's finally has
+   reset the writer and failed the futures and is still awaiting on_close(self), with callers running -- writer is None, every future still registered belongs to a
    caller whose send has not run yet (it will raise AttributeError) or has just raised, and no caller awaits an unresolved future *)
-Theorem C14_drain : forall c0 closers s, reach gen_flags (init c0 closers) s -> lst s = LExit ->
+Theorem C14_drain : forall c0 closers s, reach gen_flags (init c0 closers) s -> lst s = LExit \/ lst s = LCloseWait ->
   writer s = false /\
   (forall k, In k (pending s) -> exists c, nth_error (calls s) k = Some c /\ c_fut c = FUnres /\
      (c_pc c = PRegd \/ c_pc c = PSched \/ c_pc c = PDone (RExc XAttr))) /\
@@ -42,10 +43,10 @@ Proof. exact (fun c0 closers s => drain_invariant gen_flags c0 closers s gen_fla
 Print Assumptions C14_drain.
 
 (* ... so nobody waits forever: each caller under way has an enabled step of its own that moves it strictly forward *)
-Theorem C14_drain_progress : forall c0 closers s k c, reach gen_flags (init c0 closers) s -> lst s = LExit ->
+Theorem C14_drain_progress : forall c0 closers s k c, reach gen_flags (init c0 closers) s -> lst s = LExit \/ lst s = LCloseWait ->
   nth_error (calls s) k = Some c -> c_pc c <> PIdle -> (forall r, c_pc c <> PDone r) ->
   exists a s' ev c', In a [ARegister k; ASchedule k; ASend k; AComplete k] /\ step gen_flags s a = Some (s', ev) /\
-                     nth_error (calls s') k = Some c' /\ rank (c_pc c) < rank (c_pc c') /\ lst s' = LExit.
+                     nth_error (calls s') k = Some c' /\ rank (c_pc c) < rank (c_pc c') /\ lst s' = lst s.
 Proof. exact (fun c0 closers s k c => drain_progress gen_flags c0 closers s k c gen_flags_ok). Qed.
 Print Assumptions C14_drain_progress.
 
@@ -58,8 +59,16 @@ Theorem C14_all : forall c0 nn nc, nn + nc <= 3 ->
   forall tr s h, exec gen_flags (init_cfg c0 nn nc) tr = Some (s, h) ->
     check_prefix (nn + nc) h = true /\
     (quiescent gen_flags s = true -> check_history (nn + nc) h = true).
-Proof. exact (all_runs_pass_flags gen_flags finally_cleans_pending eq_refl eq_refl eq_refl). Qed.
+Proof. exact (all_runs_pass_flags gen_flags finally_cleans_pending eq_refl eq_refl eq_refl eq_refl). Qed.
 Print Assumptions C14_all.
+
+(* `self.writer = None` moved from the top of the finally to after `await on_close(self)` is refuted: a call made while the
+   on_close handler is parked is written into the dead stream after the cleanup has run and waits forever *)
+Theorem C14_late_writer_reset_refuted : exists s h,
+  exec (mkFlags true false true) (init_cfg true 1 0) late_reset_trace = Some (s, h) /\ quiescent (mkFlags true false true) s = true /\
+  check_history 1 h = false /\ lst s = LExit /\ writer s = false /\
+  exists c, nth_error (calls s) 0 = Some c /\ c_pc c = PAwait /\ c_fut c = FUnres /\ c_sent c = true.
+Proof. exact late_writer_reset_refuted. Qed.
 
 (* Calls racing run_client(), before the connection is established (any number of calls): self.writer is still None, so a
    send raises AttributeError at once, and nobody awaits an unresolved future; with a provider that is not open yet
@@ -88,7 +97,7 @@ Theorem C14_all_bytes : forall (lab : wmsg -> label) c0 nn nc, nn + nc <= 3 ->
   forall items w h, wexec gen_flags lab (w_init (init_cfg c0 nn nc)) items = (w, h) ->
     check_prefix (nn + nc) h = true /\
     (quiescent gen_flags (w_s w) = true -> check_history (nn + nc) h = true).
-Proof. exact (all_wire_runs_pass_flags gen_flags finally_cleans_pending eq_refl eq_refl eq_refl). Qed.
+Proof. exact (all_wire_runs_pass_flags gen_flags finally_cleans_pending eq_refl eq_refl eq_refl eq_refl). Qed.
 Print Assumptions C14_all_bytes.
 
 (* and what the listener handles is exactly what the server wrote: the frames msgs in order, each once, under ANY
@@ -120,7 +129,7 @@ Print Assumptions C14_wire_cut_between_frames.
 (* The loop `for future in self.pending_responses.values()` (the tree before fix: commit 65bab7f) is refuted: a maximal run of
    three calls whose history fails the checker -- call 1 waits forever -- because call 2 registers during the loop. *)
 Theorem C14_live_dict_cleanup_refuted : exists s h,
-  exec (mkFlags false true) (init_cfg true 3 0) race_trace = Some (s, h) /\ quiescent (mkFlags false true) s = true /\
+  exec (mkFlags false true false) (init_cfg true 3 0) race_trace = Some (s, h) /\ quiescent (mkFlags false true false) s = true /\
   check_history 3 h = false /\ lst s = LCrash /\
   exists c, nth_error (calls s) 1 = Some c /\ c_pc c = PAwait /\ c_fut c = FUnres.
 Proof. exact race_refuted. Qed.
@@ -210,7 +219,7 @@ Print Assumptions C14_klong_dispatch_progress.
 Example C14_all_example :
   exists s h, exec gen_flags (init_cfg true 2 1)
     [AConnect true; AInvoke 0; ARegister 0; AInvoke 1; ARegister 1; ASchedule 1; ASend 1; ASchedule 0; ASend 0; AResp 1 true; AInvoke 2;
-     AComplete 1; ARegister 2; ASchedule 2; ASend 2; AResp 2 true; AComplete 2; AComplete 0] = Some (s, h) /\
+     AComplete 1; ARegister 2; ASchedule 2; ASend 2; AResp 2 true; AComplete 2; AComplete 0; ACloseDone] = Some (s, h) /\
   quiescent gen_flags s = true /\ check_history 3 h = true /\
   h = [EConnected; ECall 0; ECall 1; ESent 1; ESent 0; EResp 1 (BVal 1); ECall 2; ERet 1 (BVal 1); ESent 2; EResp 2 BClose; ELoss;
        ERet 2 BClose; ERaise 0 XCloseConn].
@@ -220,12 +229,14 @@ Example C14_drain_example :
   exists s, reach gen_flags (init true [false; false]) s /\ lst s = LExit /\ pending s = [1].
 Proof.
   eexists. split.
-  - eapply reach_step. eapply reach_step. eapply reach_step. eapply reach_step. eapply reach_step. eapply reach_step. eapply reach_step. eapply reach_init.
+  - eapply reach_step. eapply reach_step. eapply reach_step. eapply reach_step. eapply reach_step. eapply reach_step. eapply reach_step. eapply reach_step. eapply reach_step. eapply reach_init.
     + instantiate (3 := AConnect true). vm_compute. reflexivity.
     + instantiate (3 := AInvoke 0). vm_compute. reflexivity.
     + instantiate (3 := ARegister 0). vm_compute. reflexivity.
     + instantiate (3 := AInvoke 1). vm_compute. reflexivity.
     + instantiate (3 := APush false). vm_compute. reflexivity.
+    + instantiate (3 := AErrDone). vm_compute. reflexivity.
+    + instantiate (3 := ACloseDone). vm_compute. reflexivity.
     + instantiate (3 := ARegister 1). vm_compute. reflexivity.
     + instantiate (3 := ASchedule 1). vm_compute. reflexivity.
   - split; reflexivity.
